@@ -531,7 +531,19 @@ def rule_f(repo, chk):
             if new is not None:
                 swaps.append((s, saved, new))
         acquires = [(s, saved) for s, saved, new in swaps if saved is not None]
-        chk.ob('C12.f', len(acquires) == 1, f, '%s swaps sys.path in one statement that also saves the old value' % fn,
+        if not acquires:
+            # the two-statement form: `old = sys.path` and then `sys.path = new`, the save dominating the install
+            saves = [a for a in stmts_in(f, ast.Assign) if len(a.targets) == 1 and isinstance(a.targets[0], ast.Name) and repo.resolve(a.value) == 'sys.path']
+            for sv in saves:
+                for s, _, new in swaps:
+                    if isinstance(new, ast.Name) and new.id == sv.targets[0].id:
+                        continue            # that is the restore
+                    cfg_ = cfg_of(f)
+                    svn = cfg_.nodes_of(sv)
+                    p_ = cfg_.reach([cfg_.entry], lambda n, s=s: n in cfg_.nodes_of(s), block_node=lambda n: n in svn)
+                    if p_ is None:
+                        acquires.append((s, sv.targets[0].id))
+        chk.ob('C12.f', len(acquires) == 1, f, '%s saves the old sys.path when it installs the new one (one swap statement, or a save that dominates the install)' % fn,
                'swap statements: %s' % [short(s) for s, _, _ in swaps])
         for s, saved in acquires:
             def is_release(n, saved=saved):
@@ -543,7 +555,8 @@ def rule_f(repo, chk):
                    'exit without restore: %s' % w if w else '')
             # the saved name is not clobbered in between
             clob = [x for x in stmts_in(f, (ast.Assign, ast.AugAssign)) if x is not s and
-                    any(isinstance(t, ast.Name) and t.id == saved and isinstance(t.ctx, ast.Store) for t in ast.walk(x))]
+                    any(isinstance(t, ast.Name) and t.id == saved and isinstance(t.ctx, ast.Store) for t in ast.walk(x))
+                    and not (isinstance(x, ast.Assign) and repo.resolve(x.value) == 'sys.path')]      # the save itself (two-statement form)
             chk.ob('C12.f', not clob, s, 'the saved path `%s` is not overwritten before the restore' % saved)
     # CLI-only modules really are not imported by library modules
     for m in repo.modules.values():
